@@ -269,6 +269,16 @@ structure AITE where
   it : AIter
 deriving Inhabited
 
+/-- row `r` of the loop is still to be delivered by the (concrete) iterator -/
+def Iter.pend (it : Iter) (r : Nat) : Bool := it.rows.any (fun x => x.rowNum == r)
+
+/-- the number of packets of the loop (as it is now) that the iterator has passed -/
+def Iter.doneIn (it : Iter) (d : Db) : Nat := ((d.loopRows it.cid it.loopNum).filter (fun q => !it.pend q)).length
+
+/-- the iterator as the documented model sees it -/
+def absIter (it : Iter) (s : Store) : AIter :=
+  { cid := it.cid, num := it.loopNum, done := it.doneIn s.db, hasCur := decide (0 < it.prev), start := absS (s.txn.getD s.db) }
+
 /-- cif_loop_get_packets on a CIF without open iterator -/
 def specItOpen (a : AState) (l : LH) : Except Code AIter :=
   match a.findLoop l.cid l.loopNum with
